@@ -19,7 +19,60 @@ REDIS_TB = [
     "strings.ToUpper modelled for ASCII; strconv.Atoi modelled without overflow",
 ]
 
+KFL_TB = [
+    "Kfl/{Ast,Precompute,Eval,Path,Json}.lean are hand-written models of precompute.go, eval.go and of the ojg subset "
+    "(jp.ParseString / Get / Set, oj.ParseString) KFL uses; tied to the code by the correspondence check",
+    "the query reaches the model as the syntax tree the generator meant; the real parser is checked to build that tree",
+    "float64 stands for exact decimals with <= 15 significant digits; regexp modelled for a literal/./*/+/?/^/$ subset",
+    "time helpers, datetime() and xml() are outside the model (covered by the no-crash family only)",
+]
+KFL_RULE = ("type-directed random queries (all operators, literals incl. 1234567 / 1000000 / decimals, paths present and "
+            "absent, index / key / wildcard / descent selectors, helpers well- and ill-typed, json() selectors plain and "
+            "base64, nested parentheses, unary operators) x records in which every field is independently present and "
+            "of varying type; the generator's syntax tree must equal the real parser's; ")
+
 PROPS = {
+    "C12": dict(
+        proof_modules=["KsVerif.Proofs.C12"],
+        families=["kfl.eval"],
+        rule="kfl.eval: " + KFL_RULE + "truth and limit compared three ways (real code, model, reference semantics); "
+             "non-trivial = inside the model and the reference semantics' domain",
+        trusted_base=KFL_TB + LIB,
+        assumptions=["where the statement is silent the reference semantics follows the implementation: array-vs-array "
+                     "comparisons, `!`/`-` on operands of other types, truthiness of objects, which of several limit() wins"],
+    ),
+    "C13": dict(
+        proof_modules=["KsVerif.Proofs.C13"],
+        families=["kfl.fuzz"],
+        facts=[],
+        rule="kfl.fuzz: fixed corpus of historically crashing queries; every helper x 0..3 arguments x 12 argument kinds as "
+             "function, method, inside json() and xml(); random chains of json()/xml()/index/key/descent selectors; nesting "
+             "depth 10..5000; random bytes and token soup; each against a record with embedded JSON / XML / base64 / "
+             "garbage and against a random record (incl. malformed); Validate, PrepareQuery, Eval, Apply; "
+             "non-trivial = more than a trivial text",
+        trusted_base=KFL_TB + LIB,
+        assumptions=["participle (parser), regexp2 (macros), mxj (XML) are exercised, not modelled",
+                     "goroutine stack exhaustion on very deep nests is a runtime limit outside the model"],
+        impl_timeout=600,
+    ),
+    "C14": dict(
+        proof_modules=["KsVerif.Proofs.C14"],
+        families=["kfl.frame"],
+        rule="kfl.frame: " + KFL_RULE + "the returned record must equal the given record as a JSON value "
+             "(queries without redact); non-trivial = inside the model",
+        trusted_base=KFL_TB + LIB,
+        assumptions=["ojg parse / print round-trips JSON values (numbers compared as exact decimals)"],
+    ),
+    "C18": dict(
+        proof_modules=["KsVerif.Proofs.C18"],
+        families=["kfl.reuse"],
+        facts=["kfl_eval_stores.json"],
+        rule="kfl.reuse: " + KFL_RULE + "the prepared query is evaluated a second time and from 8 goroutines at once, "
+             "each result compared with the first; the prepared tree is deep-compared before and after; "
+             "non-trivial = inside the model",
+        trusted_base=KFL_TB + ["store facts: eval.go assigns to no field (go/ast scan, expectation committed)"] + LIB,
+        assumptions=["compiled third-party objects (regexp.Regexp, jp.Expr) are read-only when used"],
+    ),
     "C17": dict(
         proof_modules=["KsVerif.Proofs.C17"],
         families=["kfl.macro"],
